@@ -39,7 +39,7 @@ def cases(tier):
     for cfg in LAYOUT_CFGS:
         for i in range(0, len(base), 16):
             out.append({"k": "strs", "d": "ansi", "rs": "layout", "ss": base[i : i + 16], "cfg": cfg})
-    return out + fixfam.layout_product_cases(("layout",)) + fixfam.lt05_product_cases(("layout",))
+    return out + fixfam.layout_product_cases(("layout",)) + fixfam.lt05_product_cases(("layout",)) + fixfam.layout_sweep_cases(("layout",))
 
 
 def oracle(one, lnt, text, lf, fixed, add, res):
